@@ -20,6 +20,12 @@ func mixedWeights() map[string]int {
 		BankSend: 6, StrCreate: 5, StrClaim: 4, StrTopUp: 2, StrUpdate: 1, StrCancel: 2, StakeDeleg: 1}
 }
 
+func c04Weights() map[string]int {
+	w := mixedWeights()
+	w[StrCreate], w[StrUpdate], w[StrCancel], w[StrTopUp] = 6, 3, 3, 2 // streams towards the escrow and their sender-side settlements
+	return w
+}
+
 var cfgs = map[string]PropCfg{}
 
 func reg(c PropCfg) PropCfg { cfgs[c.ID] = c; return c }
@@ -50,7 +56,7 @@ var cfgC03 = reg(PropCfg{
 
 var cfgC04 = reg(PropCfg{
 	ID: "C04",
-	Profile: &Profile{Weights: mixedWeights(), PBulk: 8, LockedActors: true, MultiPct: 20, PGranter: 12, PFeePayer: 8, MinBlocks: 8, MaxBlocks: 40, MaxTxs: 4, MaxOps: 3, PUpper: 5, PActor: 10, PNamed: 2, PFault: 5, PExec: 6,
+	Profile: &Profile{Weights: c04Weights(), PBulk: 8, PEscrow: 25, LockedActors: true, MultiPct: 20, PGranter: 12, PFeePayer: 8, MinBlocks: 8, MaxBlocks: 40, MaxTxs: 4, MaxOps: 3, PUpper: 5, PActor: 10, PNamed: 2, PFault: 5, PExec: 6,
 		PGovParams: 0, PBadRef: 5, Vesting: true, TinyLimits: true, ValidParams: true, FeeModes: []int{FeeExact, FeeExact, FeeExact, FeeLower, FeeHigher, FeeNone, FeeExactPlusExtraDenom, FeeExactPlusExtraDenom}},
 	Rule: "history with >=1 completion and >=1 partial unlock (0 < fee < locked) or a failed fee-paying tx of a locked payer",
 	NonTrivial: func(w *World) bool {
@@ -118,9 +124,9 @@ var cfgC09 = reg(PropCfg{
 
 var cfgC06 = reg(PropCfg{
 	ID: "C06",
-	Profile: &Profile{Weights: map[string]int{WrkReg: 12, WrkRec: 22, WrkPur: 12, BcnReg: 10, BcnRec: 18, BcnPur: 10, BankSend: 6, EntRaise: 8, EntDecide: 14, StrCreate: 2},
+	Profile: &Profile{Weights: map[string]int{WrkReg: 12, WrkRec: 22, WrkPur: 12, BcnReg: 10, BcnRec: 18, BcnPur: 10, BankSend: 6, EntRaise: 8, EntDecide: 14, StrCreate: 2, FeeGrantOp: 5},
 		MinBlocks: 6, MaxBlocks: 25, MaxTxs: 6, MaxOps: 4, PUpper: 3, PActor: 4, PNamed: 1, PFault: 3, PExec: 12, PGovParams: 8, PBadRef: 3, TinyLimits: false,
-		ValidParams: true, GovKinds: []string{ParamsWrk, ParamsBcn}, PCheck: 60, LockedActors: true,
+		ValidParams: true, GovKinds: []string{ParamsWrk, ParamsBcn}, PCheck: 60, LockedActors: true, PGranter: 15,
 		FeeModes: []int{FeeExact, FeeExact, FeeExact, FeeNone, FeeLower, FeeHigher, FeeExactPlusExtraDenom, FeeOnlyExtraDenom, FeeLowerPlusExtraDenom, FeeHigherPlusExtraDenom, FeeFirstModuleOnly, FeeSubset, FeeSubset}, MultiPct: 30, PSameKind: 50, PFeePayer: 8},
 	Rule: "history containing >=1 CheckTx of a tx with >=1 WRKChain/BEACON operation and valid signature/sequence (reaches the fee decorators); distinct by scenario hash",
 	NonTrivial: func(w *World) bool { return w.Classes["c06.feeop-tx-reaching-fee-checks"] > 0 },
@@ -131,7 +137,7 @@ var cfgC06 = reg(PropCfg{
 func streamProfile() *Profile {
 	return &Profile{Weights: map[string]int{StrCreate: 12, StrClaim: 26, StrTopUp: 10, StrUpdate: 8, StrCancel: 6, BankSend: 5, WrkReg: 1, EntRaise: 1},
 		MinBlocks: 6, MaxBlocks: 30, MaxTxs: 4, MaxOps: 2, PUpper: 6, PActor: 8, PNamed: 2, PFault: 2, PExec: 6, PGovParams: 8, PBadRef: 4,
-		BigAmounts: true, ValidParams: true, LongTime: true, GovKinds: []string{ParamsStr}}
+		BigAmounts: true, ValidParams: true, LongTime: true, GovKinds: []string{ParamsStr}, PEscrow: 8}
 }
 
 var cfgC10 = reg(PropCfg{
@@ -192,7 +198,7 @@ var cfgC13 = reg(PropCfg{
 	Profile: &Profile{Weights: map[string]int{EntRaise: 8, EntDecide: 12, EntWL: 6, WrkReg: 5, WrkRec: 9, WrkPur: 4, BcnReg: 5, BcnRec: 8, BcnPur: 4,
 		StrCreate: 8, StrClaim: 8, StrTopUp: 4, StrUpdate: 4, StrCancel: 4, ParamsEnt: 2, ParamsWrk: 2, ParamsBcn: 2, ParamsStr: 2, BankSend: 2, FeeGrantOp: 3},
 		MinBlocks: 8, MaxBlocks: 35, MaxTxs: 5, MaxOps: 2, PUpper: 8, PActor: 30, PNamed: 12, PFault: 6, PExec: 14, PGovParams: 6, PBadRef: 3,
-		TinyLimits: true, MultiPct: 10, PFeePayer: 5, PForward: 40, PRetry: 5, PGranter: 12, PExecTail: 10},
+		TinyLimits: true, MultiPct: 10, PFeePayer: 5, PForward: 40, PRetry: 5, PGranter: 12, PExecTail: 10, PEscrow: 5},
 	Rule: "history containing >=1 attempt by an unentitled party on a live target (the same message would be meaningful for the entitled party); distinct by scenario hash",
 	NonTrivial: func(w *World) bool { return w.Classes["c13.attempt-on-live-target"] > 0 },
 	MinClasses: map[string]int{"c13.attempt-on-live-target": 200, "c13.entitled-control-ok": 500, "c13.attempt.exec-without-grant": 20, "c13.attempt.names-other-account": 20, "c13.control-via-grant": 3},
